@@ -123,7 +123,7 @@ class TmplGen:
         r = self.rng
         kind = r.choice(list(kinds))
         if kind == "static":
-            return ("static", r.choice(["", "v", "a b", "x-1", "é中", "1 < 2 & 3", "say \"hi\"", "it's", "  pad  ", "\U0001F600", "½ cup", "5m² ∴ ¾"]))
+            return ("static", r.choice(["", "v", "a b", "x-1", "é中", "1 < 2 & 3", " < 2", " <= b ", "\n< 3 <", "say \"hi\"", "it's", "  pad  ", "\U0001F600", "½ cup", "5m² ∴ ¾"]))
         if kind == "expr":
             return ("expr", self.expr(scope_names))
         parts = []
@@ -236,6 +236,12 @@ class TmplGen:
         if n[0] in ("elem", "text") and r.chance(1, 6):
             # <block slot="…"> around ordinary content
             return ("block", [n, ("elem", "v", [], [])] if n[0] == "text" else [n], r.choice(["s1", "s1", "", "zz"]))
+        # a <block> that carries wx:if / wx:elif / wx:else / wx:for may carry `slot` too: the branch / item content is aimed at that slot
+        sc = lambda car: car + (r.choice(["s1", "s1", "", "zz"]),) if car[0] == "block" and len(car) == 2 and r.chance(1, 2) else car
+        if n[0] == "if":
+            return ("if", [(c, sc(car)) for c, car in n[1]], None if n[2] is None else sc(n[2]))
+        if n[0] == "for":
+            return n[:5] + (sc(n[5]),)
         if n[0] != "elem":
             return n
         attrs = list(n[2])
@@ -356,7 +362,7 @@ def dyn_sanitize(nodes):
 
 
 def dyn_carrier(c):
-    return ("block", dyn_sanitize(c[1])) if c[0] == "block" else c
+    return ("block", dyn_sanitize(c[1])) + tuple(c[2:]) if c[0] == "block" else c
 
 
 def group_request(t, src):
@@ -372,8 +378,10 @@ NAMED_REFS = {"½": "frac12", "²": "sup2", "¾": "frac34", "∴": "there4", "é
 
 def esc_text(s, quote=None, rng=None):
     o = []
-    for c in s:
-        if c in NAMED_REFS and (rng is None or rng.chance(3, 4)):
+    for i, c in enumerate(s):
+        if c == "<" and rng is not None and s[i + 1:i + 2] in (" ", "=", "1", "2", "3", "\n") and s[i + 1:i + 2] != "" and rng.chance(1, 2):
+            o.append("<")                            # a `<` that cannot start a tag is text as it stands
+        elif c in NAMED_REFS and (rng is None or rng.chance(3, 4)):
             o.append("&" + NAMED_REFS[c] + ";")     # named references, several with digits in the name
         elif c == "<":
             o.append("&lt;")
@@ -455,7 +463,7 @@ class Printer:
     def carrier_parts(self, n):
         """(tag, attr texts, inner text) of an elem / block node used as carrier of wx:for / wx:if"""
         if n[0] == "block":
-            return "block", [], self.nodes(n[1])
+            return "block", ['slot="%s"' % n[2]] if len(n) > 2 else [], self.nodes(n[1])
         return n[1], [self.attr(*a) for a in n[2]], self.nodes(n[3])
 
     def node(self, n):
@@ -467,7 +475,10 @@ class Printer:
             return self.open_close(n[1], [self.attr(*a) for a in n[2]], self.nodes(n[3]))
         if k == "block":
             # a plain <block> only contributes its children (with a static slot name it aims them at a slot of the enclosing component)
-            return self.open_close("block", [' slot="%s"' % n[2]] if len(n) > 2 else [], self.nodes(n[1]))
+            at = [' slot="%s"' % n[2]] if len(n) > 2 and n[2] is not None else []
+            # (4th component: `slot:` value references of the block itself, [(name, alias or None)])
+            at += [self.attr("slot:", nm, None if al is None else ("static", al)) for nm, al in (n[3] if len(n) > 3 else [])]
+            return self.open_close("block", at, self.nodes(n[1]))
         if k == "for":
             _, lst, item, index, key, car = n
             tag, at, inner = self.carrier_parts(car)
@@ -490,8 +501,9 @@ class Printer:
                 out.append(self.open_close(tag, [kw + '="' + self.value_text(cond, '"') + '"'] + at, inner))
                 if self.vary and self.rng.chance(1, 3):
                     # between the members of a group: runs of comments and white space (the group goes on over any number of them)
+                    more = i + 1 < len(n[1]) or n[2] is not None      # (white space after the last member would belong to a text that follows the group)
                     for _ in range(1 + self.rng.below(4)):
-                        out.append(self.rng.choice(["<!-- between -->", "<!---->", " ", "\n  ", "<!-- between -->"]))
+                        out.append(self.rng.choice(["<!-- between -->", "<!---->", " ", "\n  ", "<!-- between -->"] if more else ["<!-- between -->", "<!---->"]))
             if n[2] is not None:
                 tag, at, inner = self.carrier_parts(n[2])
                 out.append(self.open_close(tag, ["wx:else"] + at, inner))
@@ -619,18 +631,18 @@ class RefJs:
                 _, lst, item, index, key, car = n
                 iv, xv = self.fresh("$it"), self.fresh("$ix")
                 self.emit(f"FOR({self.val(lst, scopes, D)},function({iv},{xv}){{")
-                self.dyn_nodes([car] if car[0] != "block" else car[1], out, scopes + [(item or "item", iv), (index or "index", xv)], D, j, sname, False)
+                self.dyn_nodes([car] if car[0] != "block" or len(car) > 2 else car[1], out, scopes + [(item or "item", iv), (index or "index", xv)], D, j, sname, False)
                 self.emit("});")
             elif k == "if":
                 first = True
                 for cond, car in n[1]:
                     self.emit(("if(" if first else "else if(") + self.val(cond, scopes, D) + "){")
-                    self.dyn_nodes([car] if car[0] != "block" else car[1], out, scopes, D, j, sname, False)
+                    self.dyn_nodes([car] if car[0] != "block" or len(car) > 2 else car[1], out, scopes, D, j, sname, False)
                     self.emit("}")
                     first = False
                 if n[2] is not None:
                     self.emit("else{")
-                    self.dyn_nodes([n[2]] if n[2][0] != "block" else n[2][1], out, scopes, D, j, sname, False)
+                    self.dyn_nodes([n[2]] if n[2][0] != "block" or len(n[2]) > 2 else n[2][1], out, scopes, D, j, sname, False)
                     self.emit("}")
             elif k == "slot":
                 self.node(n, out, scopes, D)     # a <slot> in the content is created for every slot instance
@@ -723,7 +735,9 @@ class RefJs:
         elif k == "elem":
             self.elem(n, out, scopes, D)
         elif k == "block":
-            self.nodes(n[1], out, scopes, D)
+            # a <block> may introduce slot value names of its own (probe values, like an element's)
+            inner = scopes + [((al if al is not None else nm), eg.js_str("SV:" + camel(nm))) for nm, al in (n[3] if len(n) > 3 else [])]
+            self.nodes(n[1], out, inner, D)
         elif k == "for":
             _, lst, item, index, key, car = n
             iv, xv = self.fresh("$it"), self.fresh("$ix")
